@@ -6,11 +6,11 @@ props = [json.loads(l) for l in open(os.path.join(V, "properties.jsonl"))]
 ids = [p["id"] for p in props]
 
 CLAIMED = {
- "C10": dict(level="model_checking", technique="TLA+ GGM.tla model-checked by TLC (all subsets of 8-16-leaf domains, all histories of a 6-leaf domain); TLC's state/transition table replayed into the real GGM key; recorded 256-step histories trace-validated against the spec (Trace_GGM)",
+ "C10": dict(level="model_checking", technique="TLA+ GGM.tla model-checked by TLC (all subsets of 8-16-leaf domains, all histories of a 6-leaf domain); TLC's state/transition table replayed into the real GGM key; recorded 256-step histories trace-validated against the spec (Trace_GGM); the model-level claim is lifted to all 2^256 subsets by a refinement chain GGM => GGM_Ind (inductive invariant, Apalache) => GGM_Abs (Spec => []Inv proved with TLAPS), the links and the finite tree lemma checked by TLC",
              text="Exhaustive exploration of the puncture lattice in the TLA+ model with the per-state observation table replayed on the real key after every step, plus all ordered pairs over the full 8-bit domain and long adversarial histories validated as spec behaviours; right level because the property quantifies over histories of a small state machine.",
              note="PRG outputs are treated as ideal (equal iff same tree path); fresh-key values are ground truth; domains beyond 16 leaves are sampled (pairs, 256-step histories), not exhausted.",
              ref="5/C10"),
- "C11": dict(level="model_checking", technique="TLC invariants ForwardSecure/ExactCover on GGM.tla; every lattice state reached on the real key and its retained nodes (verif-hooks) and exported bincode state judged against the fresh key's 510 node seeds; Trace_GGM validates logged retained-node sets",
+ "C11": dict(level="model_checking", technique="TLC invariants ForwardSecure/ExactCover on GGM.tla; every lattice state reached on the real key and its retained nodes (verif-hooks) and exported bincode state judged against the fresh key's 510 node seeds; Trace_GGM validates logged retained-node sets; forward security and exact cover for every punctured set follow from the TLAPS-proved invariant of GGM_Abs through the TLC-checked refinements (see C10)",
              text="The invariant is model-checked on every reachable key state of the bounded lattice, and the same predicate is evaluated on the real retained key material and on exported/imported key state at every step.",
              note="Relies on the read-only hook reporting the retained (prefix, seed) list; seeds are compared by value with the fresh key's seeds (ideal PRG: no accidental collisions).",
              ref="5/C11"),
@@ -74,7 +74,7 @@ CLAIMED = {
              text="Round-trip equality and interchangeability are checked on real values over all tag-set sizes; the loaders are cross-checked against an independent TLA+ parser on prefixes, byte faults, both caps +-1, inflated counts and non-canonical scalars.",
              note="JSON forms are checked by round trip and a list of malformed documents, not by an independent JSON parser.",
              ref="5/C15"),
- "C18": dict(level="model_checking", technique="Aggregator.tla (bucketing in arbitrary arrival order, threshold filter, worker pool with arbitrary scheduling, join) model-checked by TLC over all interleavings incl. termination under fairness; model configurations scaled and executed on the real AggregationServer under rayon pools of 1..16 threads and input permutations",
+ "C18": dict(level="model_checking", technique="Aggregator.tla (bucketing in arbitrary arrival order, threshold filter, worker pool with arbitrary scheduling, join) model-checked by TLC over all interleavings incl. termination under fairness; model configurations scaled and executed on the real AggregationServer under rayon pools of 1..16 threads and input permutations; MC_AggSweep evaluates the specification's Expected for thresholds 1..8 with every below-threshold size next to revealed ones, replayed at scale",
              text="Schedule and order independence are properties of a small concurrent state machine, exhaustively explored in the model; the real server is run on the same configurations (scaled up to hundreds of groups) with different pool sizes and permutations and its output compared with the model's prediction as a set.",
              note="Real rayon schedules are sampled, not controlled. Absent and empty associated data are identified, as the reference server does.",
              ref="5/C18"),
